@@ -450,6 +450,49 @@ def run(ctx):
                 key = 'stream/%s/%s' % ('+'.join(bad), seg)
             ctx.violation(key, 'get_banner over %d segment(s) (%s) returns banner %s header %r; sent header lines %r and banner line %r' % (
                 len(chunks), seg, obs(b), h, want_h, None if no_banner else g['line']), replay)
+    # ---- the report itself ('(gen) banner:' line, the non-conforming flag, JSON banner object), through the real output()
+    import inproc, canon, json as _json
+    n_rep = 0
+    for i in range(150 if q else 4000):
+        g = gen_grammar(rng)
+        if i % 3 == 0 and g['inj'] == 0:     # make sure injected characters meet every protocol family
+            g['sw'] = g['sw'] + rng.choice(BADCH); g['inj'] = 1
+            g['line'] = 'SSH-%s.%s-%s' % (g['maj'], g['min'], g['sw']) + ''.join(' ' * gp + w for w, gp in zip(g['words'], g['gaps']))
+        if looks_like_protocol(sanitise(g['sw'])) or split_by_space(sanitise(g['sw']), [sanitise(w) for w in g['words']]) or any(c in g['line'] for c in '\r\n'):
+            continue
+        from ssh_audit.banner import Banner
+        b = Banner.parse(g['line'])
+        if b is None:
+            continue
+        peer = {'banner': g['line'], 'kex': ['curve25519-sha256'], 'key': ['ssh-ed25519'], 'enc': ['aes256-ctr'], 'mac': ['hmac-sha2-256'], 'client_audit': i % 5 == 4}
+        n_rep += 1
+        replay = {'op': 'report', 'line': g['line']}
+        for js in (0, 1):
+            r = inproc.run_output(peer, js=js, verbose=(i % 2 == 0))
+            if r['exc']:
+                ctx.violation('report/exception', 'output() raised %s for banner line %r' % (r['exc'], g['line']), replay)
+                continue
+            if js:
+                try:
+                    jb = _json.loads(r['text'])['banner']
+                except Exception as e:  # noqa
+                    ctx.violation('report/json-malformed', 'JSON report for banner line %r: %s' % (g['line'], e), replay)
+                    continue
+                proto, sw, cm = expected_parts(g)
+                if (jb.get('protocol'), jb.get('software'), jb.get('comments'), jb.get('raw')) != ('%d.%d' % proto, sw, cm, str(b)):
+                    ctx.violation('report/json-banner', 'JSON banner object %r for line %r, expected protocol %r software %r comments %r' % (jb, g['line'], '%d.%d' % proto, sw, cm), replay)
+            else:
+                lines_ = canon.strip_ansi(r['text']).split('\n')
+                shown = [l for l in lines_ if l.startswith('(gen) banner: ')]
+                flag = [l for l in lines_ if l.startswith('(gen) banner contains non-printable ASCII')]
+                if shown != ['(gen) banner: ' + str(b)] or not printable(shown[0]):
+                    ctx.violation('report/banner-line', 'report shows %r for banner line %r (parsed banner renders as %r)' % (shown, g['line'], str(b)), replay)
+                if (len(flag) == 1) != (not printable(g['line'])) or len(flag) > 1:
+                    ctx.violation('report/non-conforming-flag', 'protocol %s.%s banner line %r (printable: %r) is %sflagged as containing non-printable ASCII in the report' % (
+                        g['maj'], g['min'], g['line'], printable(g['line']), '' if flag else 'not '), replay)
+        nontriv.add(('report', g['maj'] == '1', printable(g['line']), g['cls']))
+    hist['report'] = n_rep
+    ctx.evaluations += 2 * n_rep
     samples.append({'op': 'get_banner', 'chunks': ['hello\\r\\nSSH-2.0-Open', 'SSH_8.9p1\\r\\n'], 'note': 'split line is reassembled since ddbb5b8', 'impl': repr(obs(impl_get_banner([b'hello\r\nSSH-2.0-Open', b'SSH_8.9p1\r\n'], 'close')[0]))})
     ctx.extra['op_histogram'] = hist
     ctx.extra['families_exercised'] = sorted('%s%s' % (a, '+patch' if p else '') for a, p in fam_seen)
